@@ -14,7 +14,7 @@ SHARD_TIMEOUT = {'quick': 300, 'thorough': 1500}
 CFG = {
     'monitors': ['fkorder'],
     'deciding_counters': ['fkorder.orderable_flushes_with_inserts'],
-    'n': {'quick': 150, 'thorough': 1000},
+    'n': {'quick': 900, 'thorough': 1000},
     'ops': {'quick': 30, 'thorough': 60},
     'weights': {'create': 22, 'set': 14, 'setmany': 4, 'add': 8, 'remove': 3, 'assign': 2, 'clear': 1, 'delete': 6, 'flush': 10, 'commit': 5, 'read': 1, 'coll': 1, 'bypk': 1, 'bykey': 1, 'selectall': 0, 'selectcmp': 0, 'count': 0, 'todict': 0},
 }
